@@ -13,10 +13,11 @@ C01 — Accepted values always satisfy the parameter's declared constraints.
 
 `validate` (Validate/Model.lean) is the code, check by check; `Sat`
 (Validate/Spec.lean) is the declarative membership predicate; `WF` restricts
-Range declarations to those a constructor accepts; `Clean` / `CleanArgs`
-exclude the inputs on which the code at the current commit deviates — the full
-statement without them is refuted below by concrete witnesses, which the
-harness replays on the real code.
+Range declarations to those a constructor accepts.  (Earlier rounds carried
+exclusions for five deviations of the code — Integer and generator functions,
+`None` items of a ListSelector, non-tuples and datetimes in CalendarDateRange, a
+hex colour followed by a newline; they were repaired in /repo and the
+exclusions are gone: the statements below are the full ones.)
 
 Only property theorems and their non-vacuity examples live here; helper lemmas
 are in Validate/Lemmas.lean.
@@ -30,13 +31,13 @@ open ParamVerif.Py
 
 /-- Every modelled Parameter type: `_validate` lets a value through exactly
 when the value satisfies the declared constraints. -/
-theorem validate_ok_iff_sat (c : Cfg) (x : Ctx) (v : PyVal) (hwf : WF c) (hcl : Clean c v) :
+theorem validate_ok_iff_sat (c : Cfg) (x : Ctx) (v : PyVal) (hwf : WF c) :
     validate c x v = .ok () ↔ Sat c x v := by
   cases h : c.ptype with
   | string => exact string_iff c x v h
   | bytes => exact bytes_iff c x v h
   | number => exact number_iff c x v h
-  | integer => exact integer_iff c x v h (by simpa [Clean, h] using hcl)
+  | integer => exact integer_iff c x v h
   | magnitude => exact magnitude_iff c x v h
   | date => exact date_iff c x v h
   | calendarDate => exact calendarDate_iff c x v h
@@ -47,34 +48,34 @@ theorem validate_ok_iff_sat (c : Cfg) (x : Ctx) (v : PyVal) (hwf : WF c) (hcl : 
   | xy => exact xy_iff c x v h
   | range => exact range_iff c x v h hwf
   | dateRange => exact dateRange_iff c x v h hwf
-  | calendarDateRange => exact calendarDateRange_iff c x v h hwf hcl
+  | calendarDateRange => exact calendarDateRange_iff c x v h hwf
   | callable => unfold validate Sat; simp only [h]; exact callable_core c v
   | action => unfold validate Sat; simp only [h]; exact callable_core c v
   | list => exact list_iff c x v h
   | hookList => exact hookList_iff c x v h
   | selector => exact selector_iff c x v h
-  | listSelector => exact listSelector_iff c x v h hcl
+  | listSelector => exact listSelector_iff c x v h
   | classSelector => exact classSelector_iff c x v h
   | dict => exact dict_iff c x v h
-  | color => exact color_iff c x v h hcl
+  | color => exact color_iff c x v h
 
 /-- non-vacuity: a bounded, half-open Number, a value inside and one outside -/
 example :
     let c : Cfg := { ptype := .number, bounds := some (some (.num .int (.fin 0)), some (.num .int (.fin 2))),
                      incl := (true, false) }
-    WF c ∧ Clean c (.num .float (.fin 1)) ∧ Sat c {} (.num .float (.fin 1)) ∧
+    WF c ∧ Sat c {} (.num .float (.fin 1)) ∧
       ¬ Sat c {} (.num .int (.fin 2)) := by decide
 
 /-- non-vacuity for the Range flavours (where `WF` says something) -/
 example :
     let c : Cfg := { ptype := .range, length := 2, step := some (.num .int (.fin 1)),
                      bounds := some (some (.num .int (.fin 0)), none) }
-    WF c ∧ Clean c (.tuple [.num .int (.fin 0), .num .int (.fin 3)]) ∧
+    WF c ∧
       Sat c {} (.tuple [.num .int (.fin 0), .num .int (.fin 3)]) ∧
       ¬ Sat c {} (.tuple [.num .int (.fin 3), .num .int (.fin 0)]) := by decide
 
 /-- A rejection is a ValueError or a TypeError, nothing else. -/
-theorem validate_err_kind (c : Cfg) (x : Ctx) (v : PyVal) (e : ErrKind) (hwf : WF c) (hcl : Clean c v)
+theorem validate_err_kind (c : Cfg) (x : Ctx) (v : PyVal) (e : ErrKind) (hwf : WF c)
     (h : validate c x v = .error e) : e = .valueError ∨ e = .typeError := by
   refine (noOther_iff _).1 ?_ e h
   unfold validate
@@ -119,15 +120,7 @@ theorem validate_err_kind (c : Cfg) (x : Ctx) (v : PyVal) (e : ErrKind) (hwf : W
     have hlen : c.length = 2 := by unfold WF at hwf; simp only [hp] at hwf; exact hwf.1
     refine noOther_seq (noOther_calendarDateRangeValue c v) (fun hv => ?_)
     refine noOther_rangeTail c _ v hlen (noOther_rangeBounds c _ v) ?_
-    unfold Clean at hcl; simp only [hp] at hcl
-    cases v with
-    | none => simp [PyVal.isNone]
-    | tuple xs => simp [PyVal.isTuple]
-    | str s => exact absurd hv (calendarDateRangeValue_str c s)
-    | bytes s => exact absurd hv (calendarDateRangeValue_bytes c s)
-    | list xs => exact absurd hcl (by simp)
-    | dict ks vs => exact absurd hcl (by simp)
-    | _ => cases hn : c.allowNone <;> simp_all [calendarDateRangeValue, PyVal.isNone, PyVal.iter?]
+    cases v <;> cases hn : c.allowNone <;> simp_all [calendarDateRangeValue, PyVal.isNone, PyVal.isTuple]
 
 /-- non-vacuity: both kinds of rejection occur -/
 example :
@@ -178,8 +171,7 @@ theorem boundary_range_lower (c : Cfg) (x : Ctx) (k k' k'' : NumKind) (q : Rat) 
     (hother : InBounds c.bounds c.incl (.num k'' e))
     (hstep : StepOrder c.step (.num k (.fin q)) (.num k'' e)) :
     validate c x (.tuple [.num k (.fin q), .num k'' e]) = .ok () ↔ c.incl.1 = true := by
-  have hcl : Clean c (.tuple [.num k (.fin q), .num k'' e]) := by unfold Clean; simp [hp]
-  rw [validate_ok_iff_sat c x _ hwf hcl]
+  rw [validate_ok_iff_sat c x _ hwf]
   unfold Sat
   simp only [hp, NoneOk, PyVal.isNone, OnTuple, OnPair, RangeEnds, mapBounds_id, id, hother, hstep,
     PyVal.isNumber, true_and, and_true, Bool.false_eq_true, false_and, false_or]
@@ -223,7 +215,6 @@ theorem nan_never_within_range_bounds (c : Cfg) (x : Ctx) (a b : PyVal) (lo hi :
     (hp : c.ptype = .range) (hwf : WF c) (hb : c.bounds = some (lo, hi))
     (hside : lo.isSome = true ∨ hi.isSome = true) (hnan : a.isNanNum = true ∨ b.isNanNum = true) :
     validate c x (.tuple [a, b]) ≠ .ok () ∧ ¬ Sat c x (.tuple [a, b]) := by
-  have hcl : Clean c (.tuple [a, b]) := by unfold Clean; simp [hp]
   have hns : ¬ Sat c x (.tuple [a, b]) := by
     have hnb : ∀ v : PyVal, v.isNanNum = true → ¬ InBounds (some (lo, hi)) c.incl v := by
       intro v hv
@@ -239,7 +230,7 @@ theorem nan_never_within_range_bounds (c : Cfg) (x : Ctx) (a b : PyVal) (lo hi :
     rcases hnan with h | h
     · exact hnb a h h1
     · exact hnb b h h2
-  exact ⟨fun h => hns ((validate_ok_iff_sat c x _ hwf hcl).1 h), hns⟩
+  exact ⟨fun h => hns ((validate_ok_iff_sat c x _ hwf).1 h), hns⟩
 
 /-- non-vacuity: `Range(bounds=(0, None))` and `(nan, 1)` -/
 example :
@@ -254,12 +245,12 @@ theorem routes_agree (r₁ r₂ : Route) (c : Cfg) (x : Ctx) (v : PyVal) :
 
 /-- On every route an assignment succeeds exactly when the value satisfies the
 declared constraints, and otherwise raises ValueError / TypeError. -/
-theorem assign_accepted_iff_sat (r : Route) (c : Cfg) (x : Ctx) (v : PyVal) (hwf : WF c) (hcl : Clean c v) :
+theorem assign_accepted_iff_sat (r : Route) (c : Cfg) (x : Ctx) (v : PyVal) (hwf : WF c) :
     ((assign r c x v).accepted = true ↔ Sat c x v) ∧
     (∀ e, assign r c x v = .rejected e → e = .valueError ∨ e = .typeError) := by
   unfold assign
   constructor
-  · rw [← validate_ok_iff_sat c x v hwf hcl]
+  · rw [← validate_ok_iff_sat c x v hwf]
     cases h : validate c x v with
     | ok u => cases u; simp [Outcome.accepted]
     | error e => simp [Outcome.accepted]
@@ -269,12 +260,12 @@ theorem assign_accepted_iff_sat (r : Route) (c : Cfg) (x : Ctx) (v : PyVal) (hwf
     | error e' =>
       simp only [Outcome.rejected.injEq]
       rintro rfl
-      exact validate_err_kind c x v _ hwf hcl h
+      exact validate_err_kind c x v _ hwf h
 
 /-- What an assignment installs satisfied the constraints at that moment: the
 assigned value did, and the stored value (the assigned one; `False` for an
 Event) does. -/
-theorem stored_value_sat (r : Route) (c : Cfg) (x : Ctx) (v w : PyVal) (hwf : WF c) (hcl : Clean c v)
+theorem stored_value_sat (r : Route) (c : Cfg) (x : Ctx) (v w : PyVal) (hwf : WF c)
     (h : assign r c x v = .stored w) :
     Sat c x v ∧ Sat c x w ∧ (c.ptype ≠ .event → w = v) := by
   unfold assign at h
@@ -283,7 +274,7 @@ theorem stored_value_sat (r : Route) (c : Cfg) (x : Ctx) (v w : PyVal) (hwf : WF
   | ok u =>
     cases u
     simp only [hv, Outcome.stored.injEq] at h
-    have hs := (validate_ok_iff_sat c x v hwf hcl).1 hv
+    have hs := (validate_ok_iff_sat c x v hwf).1 hv
     refine ⟨hs, ?_, ?_⟩
     · subst h
       unfold storedValue
@@ -303,19 +294,19 @@ example :
 /-! ## constructors: every argument reaches the slot it names -/
 
 /-- The constraint slots a constructor installs are the declared ones (the
-`allow_None` rule, Tuple `length`, Magnitude's default bounds, the Selector
-auto default and `check_on_set`), and the default it validates is the declared
-default. -/
-theorem ctor_arg_effective (a : Args) (c : Cfg) (d : PyVal) (hc : CleanArgs a)
+`allow_None` rule, the Tuple length in force, Magnitude's default bounds, the
+Selector auto default and `check_on_set`), and the default it validates is the
+declared default. -/
+theorem ctor_arg_effective (a : Args) (c : Cfg) (d : PyVal)
     (hmk : mkCfg a = .ok (c, d)) (hwf : WF c) : specCfg a = some c ∧ d = specDefault a :=
-  mkCfg_spec a c d hc hmk hwf
+  mkCfg_spec a c d hmk hwf
 
 /-- A constructor succeeds exactly when the default satisfies the declared
 constraints (a Selector may always default to `None`). -/
-theorem ctor_ok_iff_default_sat (a : Args) (x : Ctx) (c : Cfg) (d : PyVal) (hc : CleanArgs a)
-    (hmk : mkCfg a = .ok (c, d)) (hwf : WF c) (hcl : Clean c d) :
+theorem ctor_ok_iff_default_sat (a : Args) (x : Ctx) (c : Cfg) (d : PyVal)
+    (hmk : mkCfg a = .ok (c, d)) (hwf : WF c) :
     (∃ c', construct a x = .ok c') ↔ CtorSat a x := by
-  obtain ⟨hs, hd⟩ := mkCfg_spec a c d hc hmk hwf
+  obtain ⟨hs, hd⟩ := mkCfg_spec a c d hmk hwf
   have hpt : c.ptype = a.ptype := by
     unfold mkCfg at hmk
     split at hmk
@@ -332,7 +323,7 @@ theorem ctor_ok_iff_default_sat (a : Args) (x : Ctx) (c : Cfg) (d : PyVal) (hc :
   · rcases hsel with ⟨hsel, hdn⟩
     rcases hsel with hsel | hsel <;> simp [hsel, hdn]
   · simp only [hsel, if_false]
-    have hiff := validate_ok_iff_sat c x d hwf hcl
+    have hiff := validate_ok_iff_sat c x d hwf
     cases hv : validate c x d with
     | ok u =>
       cases u
@@ -345,77 +336,33 @@ theorem ctor_ok_iff_default_sat (a : Args) (x : Ctx) (c : Cfg) (d : PyVal) (hc :
 /-- non-vacuity: `Bytes(default=b'', allow_None=True)` declares, and gets, `allow_None` -/
 example :
     let a : Args := { ptype := .bytes, default := some (.bytes ""), allowNone := some true }
-    CleanArgs a ∧ (∃ c d, mkCfg a = .ok (c, d) ∧ WF c ∧ c.allowNone = true) := by
-  refine ⟨by decide, _, _, rfl, by decide, rfl⟩
+    ∃ c d, mkCfg a = .ok (c, d) ∧ WF c ∧ c.allowNone = true := by
+  refine ⟨_, _, rfl, by decide, rfl⟩
 
-/-! ## the statement without the exclusions is false of the code: witnesses -/
+/-! ## the full statements -/
 
-/-- the full equivalence, without `Clean` -/
+/-- the full equivalence over the modelled domain -/
 def C01_full : Prop :=
   ∀ (c : Cfg) (x : Ctx) (v : PyVal), WF c → (validate c x v = .ok () ↔ Sat c x v)
 
-/-- `Integer()` accepts a generator function (Number refuses it): replayed on the code. -/
-theorem witness_integer_generator :
-    validate { ptype := .integer } {} (.func 3 true) = .ok () ∧
-    ¬ Sat { ptype := .integer } {} (.func 3 true) := ⟨rfl, by decide⟩
+theorem C01_full_holds : C01_full := fun c x v hwf => validate_ok_iff_sat c x v hwf
 
-/-- `ListSelector(objects=[1, 2], allow_None=True)` accepts `[None, 1]`. -/
-theorem witness_listSelector_none_item :
-    let c : Cfg := { ptype := .listSelector, allowNone := true,
-                     objects := [.num .int (.fin 1), .num .int (.fin 2)] }
-    validate c {} (.list [.none, .num .int (.fin 1)]) = .ok () ∧
-    ¬ Sat c {} (.list [.none, .num .int (.fin 1)]) := ⟨rfl, by decide⟩
-
-/-- `CalendarDateRange()` accepts a *list* of two dates, and leaks a KeyError on a mapping. -/
-theorem witness_calendarDateRange_non_tuple :
-    let c : Cfg := { ptype := .calendarDateRange, length := 2 }
-    validate c {} (.list [.date 737425, .date 737426]) = .ok () ∧
-    ¬ Sat c {} (.list [.date 737425, .date 737426]) ∧
-    validate c {} (.dict [.date 737425, .date 737426] [.none, .none]) = .error (.other "KeyError") :=
-  ⟨rfl, by decide, rfl⟩
-
-/-- `Color()` accepts `'#fff\n'`: `$` matches before a trailing newline. -/
-theorem witness_color_trailing_newline :
-    validate { ptype := .color } {} (.str "#fff\n") = .ok () ∧
-    ¬ Sat { ptype := .color } {} (.str "#fff\n") := ⟨rfl, by decide⟩
-
-theorem C01_full_refuted : ¬ C01_full := by
-  intro h
-  have := (h { ptype := .integer } {} (.func 3 true) (by decide)).1 witness_integer_generator.1
-  exact witness_integer_generator.2 this
-
-/-- the equivalence that does hold -/
-theorem C01_partial :
-    ∀ (c : Cfg) (x : Ctx) (v : PyVal), WF c → Clean c v → (validate c x v = .ok () ↔ Sat c x v) :=
-  fun c x v hwf hcl => validate_ok_iff_sat c x v hwf hcl
-
-/-- every constructor argument is effective, without `CleanArgs` -/
+/-- every constructor argument is effective -/
 def C01_ctor_full : Prop :=
   ∀ (a : Args) (c : Cfg) (d : PyVal), mkCfg a = .ok (c, d) → WF c → specCfg a = some c
 
-/-- `Tuple(default=(1, 2, 3), length=2)` and `XYCoordinates(default=(1, 2, 3))` end up with
-length 3: the declared length is silently replaced by the length of the default. -/
-theorem witness_tuple_length_overridden :
-    let d : PyVal := .tuple [.num .int (.fin 1), .num .int (.fin 2), .num .int (.fin 3)]
-    (∃ c, mkCfg { ptype := .tuple, default := some d, length := some 2 } = .ok (c, d) ∧ c.length = 3) ∧
-    (∃ c, mkCfg { ptype := .xy, default := some d } = .ok (c, d) ∧ c.length = 3) ∧
-    ((specCfg { ptype := .tuple, default := some d, length := some 2 }).map (·.length) = some 2) ∧
-    ((specCfg { ptype := .xy, default := some d }).map (·.length) = some 2) :=
-  ⟨⟨_, rfl, rfl⟩, ⟨_, rfl, rfl⟩, by decide, by decide⟩
+theorem C01_ctor_full_holds : C01_ctor_full := fun a c d hmk hwf => (mkCfg_spec a c d hmk hwf).1
 
-theorem C01_ctor_full_refuted : ¬ C01_ctor_full := by
-  intro h
-  let d : PyVal := .tuple [.num .int (.fin 1), .num .int (.fin 2), .num .int (.fin 3)]
-  let a : Args := { ptype := .tuple, default := some d, length := some 2 }
-  have hmk : mkCfg a = .ok ({ baseCfg a with length := 3 }, d) := rfl
-  have hs := h a _ d hmk (by decide)
-  have h2 : (specCfg a).map (·.length) = some 2 := by decide
-  rw [hs] at h2
-  simp at h2
-
-/-- the constructor statement that does hold -/
-theorem C01_ctor_partial :
-    ∀ (a : Args) (c : Cfg) (d : PyVal), CleanArgs a → mkCfg a = .ok (c, d) → WF c → specCfg a = some c :=
-  fun a c d hc hmk hwf => (mkCfg_spec a c d hc hmk hwf).1
+/-- the inputs the earlier deviations were witnessed on are now refused / follow the docstring -/
+example :
+    validate { ptype := .integer } {} (.func 3 true) = .error .valueError ∧
+    validate { ptype := .listSelector, allowNone := true, objects := [.num .int (.fin 1), .num .int (.fin 2)] } {}
+      (.list [.none, .num .int (.fin 1)]) = .error .valueError ∧
+    validate { ptype := .calendarDateRange, length := 2 } {} (.list [.date 737425, .date 737426]) = .error .valueError ∧
+    validate { ptype := .calendarDateRange, length := 2 } {} (.tuple [.datetime 0, .datetime 1]) = .error .valueError ∧
+    validate { ptype := .color } {} (.str "#fff\n") = .error .valueError ∧
+    (specCfg { ptype := .tuple, default := some (.tuple [.none, .none, .none]), length := some 2 }).map (·.length)
+      = some 3 :=
+  ⟨rfl, rfl, rfl, rfl, rfl, by decide⟩
 
 end ParamVerif.Validate
